@@ -102,19 +102,19 @@ func runR062(c *core.Ctx) {
 		case *ast.AssignStmt:
 			if len(x.Rhs) == 1 {
 				if call, ok := core.Unparen(x.Rhs[0]).(*ast.CallExpr); ok {
-					if cf := core.Callee(inf, call); cf != nil && cf.Name() == "atInputStart" {
+					if cf := core.Callee(inf, call); cf != nil && core.NameOf(cf) == "atInputStart" {
 						startVar = core.ObjOf(inf, x.Lhs[0])
 					}
 				}
 			}
 		case *ast.CallExpr:
 			cf := core.Callee(inf, x)
-			if cf != nil && cf.Name() == "recordMissingRequiredFields" {
+			if cf != nil && core.NameOf(cf) == "recordMissingRequiredFields" {
 				if _, inLit := par[x].(*ast.ExprStmt); inLit && enclosingFuncLit(par, x) == nil {
 					recPos = x.Pos()
 				}
 			}
-			if cf != nil && cf.Name() == "checkMissingFields" {
+			if cf != nil && core.NameOf(cf) == "checkMissingFields" {
 				chkGuard = core.GuardedByFact(inf, par, core.EnclosingStmt(par, x), func(f core.Fact) bool {
 					return f.Val && core.ObjOf(inf, f.Expr) == startVar && startVar != nil
 				}, nil)
@@ -126,7 +126,7 @@ func runR062(c *core.Ctx) {
 	var readMapPos token.Pos
 	ast.Inspect(rr.Body, func(n ast.Node) bool {
 		if call, ok := n.(*ast.CallExpr); ok {
-			if cf := core.Callee(inf, call); cf != nil && cf.Name() == "ReadMap" && readMapPos == 0 {
+			if cf := core.Callee(inf, call); cf != nil && core.NameOf(cf) == "ReadMap" && readMapPos == 0 {
 				readMapPos = call.Pos()
 			}
 		}
@@ -165,10 +165,10 @@ func runR062(c *core.Ctx) {
 	ast.Inspect(qd.Body, func(n ast.Node) bool {
 		if call, ok := n.(*ast.CallExpr); ok {
 			if cf := core.Callee(inf, call); cf != nil {
-				if cf.Name() == "recordMissingRequiredFields" {
+				if core.NameOf(cf) == "recordMissingRequiredFields" {
 					rec = true
 				}
-				if cf.Name() == "checkMissingFields" {
+				if core.NameOf(cf) == "checkMissingFields" {
 					chk = true
 				}
 			}
@@ -192,14 +192,14 @@ func runR062(c *core.Ctx) {
 							return false
 						}
 						cf := core.Callee(inf, call)
-						return cf != nil && cf.Name() == "IsKeyExcluded"
+						return cf != nil && core.NameOf(cf) == "IsKeyExcluded"
 					}, nil) {
 						skip = true
 					}
 				}
 			}
 		case *ast.CallExpr:
-			if cf := core.Callee(inf, x); cf != nil && cf.Name() == "scopeString" {
+			if cf := core.Callee(inf, x); cf != nil && core.NameOf(cf) == "scopeString" {
 				prefix = true
 			}
 		}
@@ -222,7 +222,7 @@ func runR062(c *core.Ctx) {
 			return true
 		}
 		cf := core.Callee(inf, call)
-		isEnter := cf != nil && cf.Name() == "enterMapScope"
+		isEnter := cf != nil && core.NameOf(cf) == "enterMapScope"
 		isCb := jcbParam != nil && core.ObjOf(inf, call.Fun) == jcbParam
 		if !isEnter && !isCb {
 			return true
@@ -233,7 +233,7 @@ func runR062(c *core.Ctx) {
 				return false
 			}
 			tf := core.Callee(inf, t)
-			return tf != nil && tf.Name() == "IsNull"
+			return tf != nil && core.NameOf(tf) == "IsNull"
 		}, nil) {
 			guardedCalls++
 		} else {
